@@ -336,14 +336,15 @@ def check_int(acc, rnd, v: int):
 
 def check_uint(acc, rnd, v: int):
     form = rnd.choice(["dec", "dec", "dec0", "hex", "HEX"])
+    sign, a = ("-", -v) if v < 0 else ("", v)  # the grammar lets a uint literal carry a sign: -1u is a literal, and out of range
     if form == "dec":
-        src = str(v)
+        src = sign + str(a)
     elif form == "dec0":
-        src = "0" * rnd.randint(1, 3) + str(v)
+        src = sign + "0" * rnd.randint(1, 3) + str(a)
     elif form == "hex":
-        src = "0x" + format(v, "x")
+        src = sign + "0x" + format(a, "x")
     else:
-        src = "0x" + format(v, "X")
+        src = sign + "0x" + format(a, "X")
     src += rnd.choice("uU")
     exp = ("uint", v) if 0 <= v <= MV.UINT_MAX else "E"
     acc.hook("uint")
@@ -397,7 +398,7 @@ def run(ctx):
             i += 1
             if ctx.mine(i):
                 check_int(acc, rnd, v)
-    for v in MV.uint_boundaries() + [MV.UINT_MAX + 1, 2**65, 10**30]:
+    for v in MV.uint_boundaries() + [MV.UINT_MAX + 1, 2**65, 10**30, -1, -2, -42, -255, -(2**31), -(2**63), -(2**63) - 1, -(2**64), -MV.UINT_MAX]:
         for _ in range(3):
             i += 1
             if ctx.mine(i):
@@ -460,6 +461,8 @@ def run(ctx):
             ok, src = check_int(acc, rnd, v)
         elif r < 0.88:
             v = MV.rand_uint(rnd)
+            if rnd.random() < 0.08:
+                v = -rnd.choice([1, 2, 7, 255, 2**32, v or 1])
             if rnd.random() < 0.1:
                 v = MV.UINT_MAX + rnd.randint(1, 2**20)
             ok, src = check_uint(acc, rnd, v)
